@@ -216,6 +216,8 @@ class Interp:
                     self.append_only.add(nm)
         from . import sym as _sym
         _sym.MODULE_DEFS.clear()
+        _sym.MODULE_CLASSES.clear()
+        _sym.MODULE_CLASSES.update(q for q, nodes in self.mod.defs.items() if "." not in q and nodes and all(isinstance(x, ast.ClassDef) for x in nodes))
         _sym.METHOD_NAMES.clear()
         _sym.DATA_ATTR_NAMES.clear()
         for q, nodes in self.mod.defs.items():
